@@ -544,13 +544,14 @@ def s_eq_hash(ctx, fail, E, species):
 
 
 def s_lines(ctx, fail, E, Line, species):
+    """Line objects over every exported species as dict keys; distinct lines unequal"""
     trs = [(3, 2), ('2s1 3p1 3P4.0', '2s1 3s1 3S1.0')]
-    if ctx.tier == 'thorough':
+    thorough = ctx.tier == 'thorough'
+    if thorough:
         trs.append((4, 2))
     lines = []
     for o in species:
-        charges = sorted({0, o.atomic_number - 1} if ctx.tier == 'thorough' else {0})
-        for c in charges:
+        for c in sorted({0, o.atomic_number - 1}):
             for t in trs:
                 lines.append((o, c, t, Line(o, c, t)))
     d = {l[3]: k for k, l in enumerate(lines)}
@@ -563,20 +564,29 @@ def s_lines(ctx, fail, E, Line, species):
         if not ok:
             fail('C19:line:key:%s' % o.name, 'an equal Line(%r, %d, %r) built from a fresh copy is not found as dict key (== %r, hash equal %r, lookup %r)'
                  % (o, c, t, l2 == l, hash(l2) == hash(l), d.get(l2)), dict(element=o.name, charge=c, transition=list(t)))
-    # distinct lines compare unequal (all ordered pairs)
+    # distinct lines compare unequal.  thorough: all ordered pairs; quick: all ordered pairs of lines of the same species
+    # (charge / transition differ) and all ordered pairs of species at fixed charge and transition (element differs)
     hs = [hash(l[3]) for l in lines]
-    nbad = 0
-    for a, la in enumerate(lines):
-        x = la[3]
-        for b, lb in enumerate(lines):
-            y = lb[3]
-            eq = x == y
-            if eq is not (a == b) or (x != y) is (a == b) or (eq and hs[a] != hs[b]):
-                nbad += 1
-                fail('C19:line:eq:%s:%s' % (la[0].name, lb[0].name), '%r == %r is %r (distinct lines: %r)' % (x, y, eq, a != b),
-                     dict(a=[la[0].name, la[1], list(la[2])], b=[lb[0].name, lb[1], list(lb[2])]))
-    ctx.count('S:line-ordered-pairs', len(lines) ** 2)
-    ctx.evaluations += len(lines) ** 2
+    if thorough:
+        idx_pairs = ((a, b) for a in range(len(lines)) for b in range(len(lines)))
+    else:
+        by_sp = {}
+        for k, l in enumerate(lines):
+            by_sp.setdefault(id(l[0]), []).append(k)
+        first = [ks[0] for ks in by_sp.values()]
+        idx_pairs = itertools.chain((p for ks in by_sp.values() for p in itertools.product(ks, ks)), itertools.product(first, first))
+    npairs = 0
+    for a, b in idx_pairs:
+        la, lb = lines[a], lines[b]
+        x, y = la[3], lb[3]
+        npairs += 1
+        eq = x == y
+        if eq is not (a == b) or (x != y) is (a == b) or (eq and hs[a] != hs[b]):
+            what = 'element' if la[0] is not lb[0] else 'charge' if la[1] != lb[1] else 'transition' if la[2] != lb[2] else 'same'
+            fail('C19:line:eq:differ-in-%s:%s:%s' % (what, la[0].name, lb[0].name), '%r == %r is %r, != is %r (distinct lines: %r)' % (x, y, eq, x != y, a != b),
+                 dict(a=[la[0].name, la[1], list(la[2])], b=[lb[0].name, lb[1], list(lb[2])]))
+    ctx.count('S:line-ordered-pairs', npairs)
+    ctx.evaluations += npairs
 
 
 def k_eq_rows(ctx, drv, species):
